@@ -31,7 +31,7 @@ func Budget(tier string) *run.Deadline {
 	if tier == "thorough" {
 		return run.NewDeadline(25 * time.Minute)
 	}
-	return run.NewDeadline(240 * time.Second)
+	return run.NewDeadline(900 * time.Second)
 }
 
 var (
